@@ -175,6 +175,15 @@ func buildFamily(schema *ast.Schema, op *opgen.Op) *family {
 	invalid("unbalanced-extra-open", "parse", insertRootSelection(T, "{"), op.OpName, vars)
 	invalid("no-operation", "validate", "fragment ZzOnly on "+rootName+" { __typename }", "", nil)
 
+	// --- a valid and an invalid text that a cache keyed by a "normalised" text would confuse: they
+	// differ only in white space (a line break after a comment) resp. only in letter case
+	if tt := strings.TrimRight(T, " \n"); strings.HasSuffix(tt, "}") {
+		valid("comment-then-newline", tt[:len(tt)-1]+"# c\n}", op.OpName, vars)
+		invalid("comment-swallows-close", "parse", tt[:len(tt)-1]+"# c }", op.OpName, vars)
+	}
+	valid("typename-alias", insertRootSelection(T, "zc: __typename"), op.OpName, vars)
+	invalid("typename-alias-upper-case", "validate", insertRootSelection(T, "zc: __TYPENAME"), op.OpName, vars)
+
 	// --- several operations in one document: same text Tm, verdict decided by operationName
 	Tm := T + "\nquery ZzOther { zt: __typename }"
 	valid("multi-named", Tm, op.OpName, vars)
